@@ -828,6 +828,12 @@ def mtvrp_integer_demands(ctx: Ctx):
         if isinstance(e, ast.BinOp) and isinstance(e.op, (ast.Sub, ast.Add)) and isinstance(e.right, ast.Constant) and isinstance(e.left, ast.Attribute) \
                 and isinstance(e.left.value, ast.Name) and e.left.value.id == "self":
             return e.left.attr, (e.right.value if isinstance(e.op, ast.Sub) else -e.right.value)
+        if isinstance(e, ast.BinOp) and isinstance(e.op, ast.Add) and isinstance(e.left, ast.Constant) and isinstance(e.right, ast.Attribute) \
+                and isinstance(e.right.value, ast.Name) and e.right.value.id == "self":
+            return e.right.attr, -e.left.value
+        if isinstance(e, ast.BinOp) and isinstance(e.op, ast.Add) and isinstance(e.left, ast.UnaryOp) and isinstance(e.left.op, ast.USub) and isinstance(e.left.operand, ast.Constant) \
+                and isinstance(e.right, ast.Attribute):
+            return e.right.attr, e.left.operand.value
         if isinstance(e, ast.Attribute) and isinstance(e.value, ast.Name) and e.value.id == "self":
             return e.attr, 0
         return None
@@ -843,6 +849,8 @@ def mtvrp_integer_demands(ctx: Ctx):
                 trunc = True
             if isinstance(p_, ast.BinOp) and isinstance(p_.op, (ast.Add, ast.Sub)) and isinstance(p_.right, ast.Constant) and p_.left is x and trunc and shift is None:
                 shift = p_.right.value if isinstance(p_.op, ast.Add) else -p_.right.value
+            elif isinstance(p_, ast.BinOp) and isinstance(p_.op, ast.Add) and isinstance(p_.left, ast.Constant) and p_.right is x and trunc and shift is None:
+                shift = p_.left.value
             if isinstance(p_, ast.stmt):
                 break
             x = p_
